@@ -1,5 +1,5 @@
 (* C08Check: correspondence checker for the daglish traversals. *)
-From Fiddle Require Import PyBase PySlice Sig ArgStore PyCall Heap Traverse.
+From Fiddle Require Import PyBase PySlice Sig ArgStore PyCall Heap Traverse Build_proofs.
 
 Definition vp_eq_dec : forall a b : list (ref * path), {a = b} + {a <> b}.
 Proof. apply list_eq_dec. decide equality; auto using ref_eq_dec, path_eq_dec. Defined.
@@ -27,7 +27,7 @@ Definition bij_respects_new (n : nat) (m : bij) : bool :=
 
 Definition check_case (c : case) : bool :=
   let e := c_env c in let h := c_heap c in let fuel := S (length h) in
-  wf_b e h
+  wf_b e h && keys_ok_b h   (* the hypotheses of the C08 theorems *)
   && (if vp_eq_dec (iter_basic e h fuel (c_root c) []) (c_basic c) then true else false)
   && (if vp_eq_dec (snd (iter_memo e h false fuel [] (c_root c) [])) (c_memo_ni c) then true else false)
   && (if vp_eq_dec (filter is_ptr (snd (iter_memo e h true fuel [] (c_root c) []))) (c_memo_ptr c)
